@@ -1282,24 +1282,26 @@ scenario_large(void)
             }
 }
 
-/* ---- scenario X: the source of a store overlaps the auxiliary buffer -------------------------------- */
+/* ---- scenario X: the source of a store touches the auxiliary buffer ---------------------------------- */
 
 /*
- * The caller's source block [src, src+len) of a full or partial store lies at
- * every position relative to the auxiliary buffer [aux, aux+b) at which the two
- * overlap or touch: src - aux = -len .. b (one exact heap block holds the union).
- * The library may use the auxiliary buffer whenever it likes, so what the source
- * block holds by the time the library reads it is the library's business; the
- * statement's sentences about the *result* do not depend on it and are all that
- * is demanded after a store that reports success:
+ * The caller's source block [src, src+len) of a full or partial store lies
+ * directly in front of or directly behind the auxiliary buffer [aux, aux+b):
+ * src - aux = -len and src - aux = b (one exact heap block holds the two, no
+ * octet is shared).  Positions at which the two OVERLAP are not generated: the
+ * statement does not quantify over aliasing between a call's source and the
+ * scratch memory the caller assigned to the library; a library that stages the
+ * block through its buffer with memcpy is legitimate, and memcpy between
+ * overlapping blocks is undefined by the C standard, not by the library (audit
+ * 5; seeded change C10l is therefore not reported).
+ * Demanded after a store that reports success:
  *   - the checksum octets on the medium encode the configured algorithm over the
  *     data image on the medium ("the checksum on the medium equals the configured
  *     algorithm applied to the data image no matter how the library chunks its
  *     reads");
  *   - validation succeeds;
  *   - a fetch (into a separate block) returns the data image on the medium.
- * That the octets stored are those the source held when the call was made is
- * NOT demanded here (scenario B demands it for sources that overlap nothing).
+ *   - and, as no octet is shared, that image is the one the caller stored.
  * Destinations of fetches that overlap the auxiliary buffer, and sources inside
  * a memory-mapped medium, are not generated (see checks.d: assumptions).
  */
@@ -1325,7 +1327,9 @@ alias_case(const struct cfg *c, bool full, size_t off, size_t len, long d)
     make_image(image, c->N, 2);
     make_image(part, c->N, 3);
     const bool overlap = d > -(long)len && d < (long)b;
-    const char *outcome = overlap ? "alias-src-overlaps-aux" : "alias-src-touches-aux";
+    if (overlap)
+        mc_broken("scenario X generated a source block that overlaps the auxiliary buffer (d=%ld)", d);
+    const char *outcome = "alias-src-touches-aux";
     int orders = 0;
     if (do_reset(&in, 0xee) && do_store(&in, c, image, &orders)) {
         memset(arena, 0xa5, asize);
@@ -1345,7 +1349,7 @@ alias_case(const struct cfg *c, bool full, size_t off, size_t len, long d)
             const int o = region_interps(M.img, cs, c->N, c->ck, NULL) & orders;
             if (o == 0) {
                 FAIL("C10/checksum-on-medium",
-                     "after a successful %s whose source block overlaps or touches the auxiliary buffer the "
+                     "after a successful %s whose source block touches the auxiliary buffer the "
                      "checksum octets on the medium do not encode %s(data image on the medium)",
                      full ? "store" : "store_part", CKNAME[c->ck]);
                 ok = false;
@@ -1366,6 +1370,17 @@ alias_case(const struct cfg *c, bool full, size_t off, size_t len, long d)
                              full ? "store" : "store_part");
                     else if (memcmp(dst, M.img + (df ? 0 : cs), c->N) != 0)
                         FAIL("C10/fetch-returns-image", "fetch did not return the data image the medium holds");
+                    else {
+                        /* source and auxiliary buffer share no octet: the image is
+                         * what the caller stored (as in scenario B) */
+                        unsigned char want[NMAX];
+                        memcpy(want, image, c->N);
+                        memcpy(want + off, part + off, len);
+                        if (memcmp(dst, want, c->N) != 0)
+                            FAIL("C10/fetch-returns-image",
+                                 "fetch did not return the stored image (source block directly %s the auxiliary buffer)",
+                                 d < 0 ? "in front of" : "behind");
+                    }
                 }
                 free(dst);
             }
@@ -1385,8 +1400,9 @@ scenario_alias(const struct cfg *c)
             for (size_t len = 1; off + len <= c->N; ++len) {
                 if (full && !(off == 0 && len == c->N))
                     continue;
-                for (long d = -(long)len; d <= (long)c->buf; ++d)
-                    alias_case(c, full != 0, off, len, d);
+                /* the two touching positions only (no shared octet) */
+                alias_case(c, full != 0, off, len, -(long)len);
+                alias_case(c, full != 0, off, len, (long)c->buf);
             }
 }
 
@@ -1745,7 +1761,7 @@ main(int argc, char **argv)
     mc_init(argc, argv);
     anchors();
     const size_t nmax = mc_thorough() ? 24 : 10;
-    const size_t amax = mc_thorough() ? 16 : 8; /* X: source overlapping the auxiliary buffer */
+    const size_t amax = mc_thorough() ? 16 : 8; /* X: source touching the auxiliary buffer */
     struct cfg c;
     memset(&c, 0, sizeof c);
     c.init = SUM32_INIT;
@@ -1856,8 +1872,9 @@ main(int argc, char **argv)
              "compact sequences (parts at the last octet and over the second half); H: sizes 1..%zu x "
              "placements %s x every call sequence of length <= %d over {init,place(A),place(B),sum16,sum32} after "
              "the first init (%d histories) x object prefill {00,a5} x buffers %s x 4 compact sequences; X: sizes 1..%zu "
-             "(same grid, buffers 1..N+1) x full store and every store_part (offset,len>=1) x source block at every "
-             "position src-aux = -len..bufsize relative to the auxiliary buffer (overlapping or touching); O: sizes "
+             "(same grid, buffers 1..N+1) x full store and every store_part (offset,len>=1) x source block directly in "
+             "front of and directly behind the auxiliary buffer (src-aux = -len and = bufsize: touching, never "
+             "overlapping); O: sizes "
              "1..%zu x bank placements %s x 3 checksums x buffers %s x 8 initial bank contents x every operation "
              "sequence of length <= %d over {store, store_part, validate, fetch, reset, place(other bank), sum16, sum32, "
              "init, alter first/last region octet} on one instance%s",
